@@ -42,6 +42,11 @@ extern "C" uint32_t ascon_trng_generate_32(ascon_trng_state_t *state) { (void)st
 extern "C" uint64_t ascon_trng_generate_64(ascon_trng_state_t *state) { (void)state; return next_word(); }
 extern "C" int ascon_trng_reseed(ascon_trng_state_t *state) { (void)state; return 1; }
 
+void hx_trng_script(const std::vector<uint64_t> &words) {
+    g_mode = "zero"; g_ctr = 0; g_list.clear();
+    for (size_t i = 0; i < words.size(); ++i) g_list.push_back(words[i]);
+}
+
 // TRNG MODE <zero|ones|alt|counter|prng|rep> [hex64]   - word tape behaviour
 // TRNG LIST <hex64>,<hex64>,...                         - explicit next words
 // TRNG SYS <hexbytes> <ok>                              - queue one system answer
